@@ -1661,6 +1661,13 @@ func (c *Ctx) c6Case(s *c6Scene, glb bool, tag string) {
 	c.Note("container." + kind)
 	c.Emit("c06.doc", kind+" "+st, o.dtok)
 	c.Emit("c06.bin", st, bytesTok(o.bin))
+	if tag == "sweep" {
+		// element-count sweeps: exact comparison of document and buffer bytes, plus the structural oracle (a failing input)
+		if len(o.bin) <= 40000 {
+			c.Emit("c06.holds.valid", o.dtok+" seen "+strconv.Itoa(len(o.seen))+" "+qs(o.seen)+" B h"+hex.EncodeToString(o.bin), "true")
+		}
+		return
+	}
 	binTok := "B h" + hex.EncodeToString(o.bin)
 	c.Emit("c06.holds.valid", o.dtok+" seen "+strconv.Itoa(len(o.seen))+" "+qs(o.seen)+" "+binTok, "true")
 	c.Emit("c06.holds.decode", st+" "+o.dtok+" "+binTok, "true")
@@ -1835,6 +1842,93 @@ func c6SamplerNameWitness() *c6Scene {
 	return s
 }
 
+// element-count sweep: one point cloud with n vertices and n indices (Position VEC3 always, plus a VEC2 / VEC4 / second
+// VEC3 attribute in rotation, all three when full), optionally n GPU instances: every accessor kind at every count, so
+// that internal block sizes of the writer (e.g. 341 vectors = 4 KiB) are hit exactly
+func (c *Ctx) c6Sweep(n int, full bool, withInst bool) *c6Scene {
+	m := c6Mesh{topo: 1, idx: make([]int, n)}
+	for i := range m.idx {
+		m.idx[i] = (i * 7) % n
+	}
+	mk := func(name string, dim int) c6Attr {
+		a := c6Attr{name: name, dim: dim, data: make([]float64, n*dim)}
+		for i := range a.data {
+			a.data[i] = float64((i*13+dim)%2001-1000) / 8
+		}
+		return a
+	}
+	m.attrs = []c6Attr{mk("Position", 3)}
+	if full || n%3 == 0 {
+		m.attrs = append(m.attrs, mk("TexCoord", 2))
+	}
+	if full || n%3 == 1 {
+		m.attrs = append(m.attrs, mk("Color", 4))
+	}
+	if full || n%3 == 2 {
+		m.attrs = append(m.attrs, mk("Normal", 3))
+	}
+	md := c6Model{name: "sweep", mesh: 0, mat: -1}
+	if withInst {
+		for k := 0; k < n; k++ {
+			in := make([]float64, 10)
+			for j := range in {
+				in[j] = float64((k*11+j*3)%401-200) / 4
+			}
+			md.inst = append(md.inst, in)
+		}
+	}
+	return &c6Scene{meshes: []c6Mesh{m}, models: []c6Model{md}}
+}
+
+// ordered texture pairs over ONE image + sampler: a plain texture and a different texture object carrying
+// KHR_texture_transform (required or not), plain first or transformed first, in two materials or in two slots of one
+// material — the only users of the extension in the scene (the second one is value-deduplicated by AddTexture)
+func (c *Ctx) c6XfOrder() *c6Scene {
+	s := c6Witness()
+	base := c.c6Tex()
+	base.xf, base.req = nil, false
+	other := c6Tex{uri: base.uri, xf: c.c6Xf(), req: c.Rng.Intn(2) == 0}
+	if base.sampler != nil {
+		other.sampler = base.sampler
+		if c.Rng.Intn(2) == 0 {
+			cp := *base.sampler
+			other.sampler = &cp
+		}
+	}
+	s.texs = []c6Tex{base, other}
+	first, second := 0, 1
+	if c.Rng.Intn(2) == 0 {
+		first, second = 1, 0
+		c.Note("xforder.transformed-first")
+	} else {
+		c.Note("xforder.plain-first")
+	}
+	blank := func(name string) c6Mat {
+		return c6Mat{name: name, hasPbr: true, bct: -1, mrt: -1, normal: -1, occl: -1}
+	}
+	switch c.Rng.Intn(3) {
+	case 0: // two materials
+		a, b := blank("first"), blank("second")
+		a.bct, b.bct = first, second
+		s.mats = []c6Mat{a, b}
+		s.models[0].mat, s.models[1].mat = 0, 1
+	case 1: // two slots of one material: base colour first, then metallic-roughness
+		a := blank("slots")
+		a.bct, a.mrt = first, second
+		s.mats = []c6Mat{a}
+		s.models[0].mat = 0
+	default: // base colour, then normal texture (added after the extensions)
+		a := blank("slots")
+		a.bct, a.normal = first, second
+		s.mats = []c6Mat{a}
+		s.models[0].mat, s.models[1].mat = 0, 0
+	}
+	if other.req {
+		c.Note("xforder.required")
+	}
+	return s
+}
+
 func runC06(c *Ctx) {
 	// fixed cases first
 	c.c6Case(c6SamplerNameWitness(), true, "")
@@ -1881,12 +1975,27 @@ func runC06(c *Ctx) {
 		if k%10 == 3 {
 			s = c.c6ExtStress()
 		}
+		if k%10 == 5 {
+			s = c.c6XfOrder()
+		}
 		c.c6Case(s, k%2 == 0, "")
 	}
-	// both sides of the uint16/uint32 threshold (thorough tier; one pair in the quick tier)
-	bigs := []int{65535, 65536, 65538}
+	// element counts: every count 1..1100 (quick) / 1..2100 with all vector kinds (thorough); GPU instances at every
+	// fifth count and around the multiples of 341
+	top := 1100
 	if c.Tier == "thorough" {
-		bigs = []int{65534, 65535, 65536, 65537, 65538, 70000, 131075}
+		top = 2100
+	}
+	for n := 1; n <= top; n++ {
+		r := n % 341
+		withInst := n <= 1100 && (n%5 == 0 || r <= 1 || r == 340 || n <= 40)
+		c.c6Case(c.c6Sweep(n, c.Tier == "thorough", withInst), n%2 == 0, "sweep")
+	}
+	c.Note("sweep.counts-to-" + strconv.Itoa(top))
+	// both sides of the uint16/uint32 threshold (thorough tier; one pair in the quick tier), and the 4096 neighbourhood
+	bigs := []int{4095, 4096, 4097, 65535, 65536, 65538}
+	if c.Tier == "thorough" {
+		bigs = []int{4095, 4096, 4097, 8191, 8192, 8193, 65534, 65535, 65536, 65537, 65538, 70000, 131075}
 	}
 	for i, nv := range bigs {
 		s := c.c6Scene(0, nv)
